@@ -103,6 +103,7 @@ type run struct {
 	strays       int
 	badHash      int
 	storm        bool
+	tracked      map[int64]bool // channels the library has a worker for (from the image, or first seen during the run)
 
 	mgr     *updates.Manager
 	cancel  context.CancelFunc
@@ -117,7 +118,13 @@ func newRun(sc *scenario, initial *snapshot, occurred int, pushPhase bool, seed 
 		probe:   map[int64]int64{}, waiters: map[int64]chan struct{}{}, seen: map[int64]bool{},
 		genuineChTL: map[int64]int{}, wprobePushed: map[int64]int{}, wprobeCount: map[int64]int{}, wprobeNeed: map[int64]int{},
 		wprobeWait: map[int64]chan struct{}{},
-		nextMarker: markerBase,
+		nextMarker: markerBase, tracked: map[int64]bool{},
+	}
+	// Manager.loadChannels tracks every stored channel whose access hash is known.
+	for id := range r.store.Ch {
+		if _, ok := r.store.ChHash[id]; ok {
+			r.tracked[id] = true
+		}
 	}
 	return r
 }
@@ -126,6 +133,9 @@ func initialSnapshot(sc *scenario) *snapshot {
 	s := &snapshot{State: updates.State{Pts: sc.S0, Qts: sc.Q0, Date: sc.D0, Seq: 0},
 		Ch: map[int64]int{}, ChHash: map[int64]int64{}, UHash: map[int64]int64{knownUser: knownUserHash}}
 	for _, ch := range sc.Chans {
+		if ch.Late {
+			continue
+		}
 		s.Ch[ch.ID] = ch.S0
 		s.ChHash[ch.ID] = ch.Hash
 	}
@@ -684,10 +694,15 @@ func (s recStorage) SetDateSeq(ctx context.Context, userID int64, date, seq int)
 	return s.write(tev{W: "SetDateSeq", Date: date, Seq: seq}, func(st *snapshot) { st.State.Date, st.State.Seq = date, seq })
 }
 
+// GetChannelPts is only called by internalState.handleChannel, on the first
+// sighting of a channel the manager has no worker for: the read is the
+// observable "the library is taking this channel on".
 func (s recStorage) GetChannelPts(ctx context.Context, userID, channelID int64) (int, bool, error) {
 	s.r.mu.Lock()
 	defer s.r.mu.Unlock()
 	pts, ok := s.r.store.Ch[channelID]
+	s.r.rec(tev{T: "chread", Ch: channelID, Pts: pts, Final: ok})
+	s.r.tracked[channelID] = true
 	return pts, ok, nil
 }
 
@@ -929,7 +944,19 @@ func (r *run) round() (fixpoint, ok bool) {
 	}
 	var probes []pr
 	var too []tg.UpdateClass
+	// Only channels the library has a worker for can be probed (an
+	// updateChannelTooLong for an unknown channel is ignored). A channel first
+	// seen during this round makes the round a non-fixpoint (its subscribe
+	// difference is not empty) and is probed in the next one.
+	r.mu.Lock()
+	var chans []chanSpec
 	for _, ch := range r.sc.Chans {
+		if r.tracked[ch.ID] {
+			chans = append(chans, ch)
+		}
+	}
+	r.mu.Unlock()
+	for _, ch := range chans {
 		id, w := r.newMarker()
 		r.mu.Lock()
 		r.probe[ch.ID] = id
@@ -937,7 +964,7 @@ func (r *run) round() (fixpoint, ok bool) {
 		probes = append(probes, pr{ch.ID, w})
 		too = append(too, &tg.UpdateChannelTooLong{ChannelID: ch.ID})
 	}
-	if !r.push(&tg.Updates{Updates: too}) {
+	if len(too) > 0 && !r.push(&tg.Updates{Updates: too}) {
 		return false, false
 	}
 	for _, p := range probes {
@@ -948,7 +975,7 @@ func (r *run) round() (fixpoint, ok bool) {
 			return false, false
 		}
 	}
-	for _, ch := range r.sc.Chans {
+	for _, ch := range chans {
 		ch := ch
 		w := make(chan struct{})
 		r.mu.Lock()
